@@ -22,7 +22,13 @@ from typing import Any, Generic
 
 from .base import BaseLintContext, BaseLintRule
 from .constants import Language
-from .linter_utils import ConfigType, has_file_content, load_linter_config
+from .linter_utils import (
+    ConfigType,
+    has_file_content,
+    is_ignored_path,
+    load_linter_config,
+    project_relative_path,
+)
 from .types import Violation
 
 
@@ -81,6 +87,9 @@ class PythonOnlyLintRule(BaseLintRule, Generic[ConfigType]):
 
         config = self._get_config(context)
         if not self._is_enabled(config):
+            return []
+        ignore_patterns = getattr(config, "ignore", None)
+        if ignore_patterns and is_ignored_path(project_relative_path(context), list(ignore_patterns)):
             return []
 
         file_path = str(context.file_path) if context.file_path else "unknown"
